@@ -1,0 +1,40 @@
+//go:build verif
+
+// Contracts for package keystore, checked by /verif (govc). Comment-only.
+package keystore
+
+// The datastore and the LRU cache are external objects; their abstract content is ghost state (dsHas/dsVal, lruHas/lruVal).
+// KS: whatever the cache holds is the base64 form of what the datastore holds under the same id.
+//@ define ksInv(k *Keystore) = k != nil && k.store != nil && k.cache != nil && (forall id string :: lruHas[k.cache][id] ==> dsHas[ref(k.store)][dskey(id)] && lruVal[k.cache][id] == b64enc(dsVal[ref(k.store)][dskey(id)]))
+
+//@ func (*Keystore).HasKey
+//@   requires ksInv(k)
+//@   modifies lruHas[k.cache], lruVal[k.cache]
+//@   ensures [has-key-reports-what-the-datastore-holds] err == nil ==> result0 == dsHas[ref(k.store)][dskey(id)]
+//@   ensures [has-key-absent-means-error-or-false] !dsHas[ref(k.store)][dskey(id)] ==> err != nil || !result0
+//@   ensures ksInv(k)
+//@   replay haskey
+
+//@ func (*Keystore).GetKey
+//@   requires ksInv(k)
+//@   modifies lruHas[k.cache], lruVal[k.cache]
+//@   ensures [get-key-returns-the-stored-key] err == nil ==> dsHas[ref(k.store)][dskey(id)] && result0 == privOf(dsVal[ref(k.store)][dskey(id)])
+//@   ensures [get-key-absent-is-an-error] !dsHas[ref(k.store)][dskey(id)] ==> err != nil
+//@   ensures ksInv(k)
+
+//@ func (*Keystore).CreateKey
+//@   requires ksInv(k)
+//@   modifies lruHas[k.cache], lruVal[k.cache], dsHas[ref(k.store)], dsVal[ref(k.store)]
+//@   ensures [created-key-is-stored] err == nil ==> dsHas[ref(k.store)][dskey(id)] && result0 == privOf(dsVal[ref(k.store)][dskey(id)])
+//@   ensures [create-key-keeps-other-keys] err == nil ==> forall j string :: j != dskey(id) ==> dsHas[ref(k.store)][j] == old(dsHas[ref(k.store)][j]) && dsVal[ref(k.store)][j] == old(dsVal[ref(k.store)][j])
+//@   ensures [keystore-invariant-also-after-failure] ksInv(k)
+
+//@ func NewKeystore
+//@   requires store != nil
+//@   ensures err == nil ==> ksInv(result0) && result0.store == store
+
+//@ func (*Keystore).Sign
+//@   requires privKey != nil
+
+//@ func (*Keystore).Verify
+//@   requires publicKey != nil
